@@ -29,7 +29,7 @@ PROPS = {
     "C13": spec("C13", PD.k_c13, "DSL texts: 40 hand-written PEG corner cases; then for each random transaction list (1-6 lines, all seven kinds, ISO currencies, keyword-like tickers) its plain rendering, a rendering with random layout (blank/comment lines, spaces/tabs, keyword/ticker/currency case, explicit GBP / zero clause, trailing comments, LF/CRLF/CR, missing final newline) and a single-token corruption; distinct non-trivial = distinct decorated or corrupted texts"),
     "C15": spec("C15", PR.k_c15, "validator: 1-6 API-level transactions of all kinds with quantities/prices/fees/ratios from {-1, 0, 0.00, 1, 2.5, -0.01, 100} against the rule as the property words it; library: bit flips, deletions, insertions, splices and truncations of repository fixtures (DSL, Schwab JSON, rate XML), random bytes, and ledgers drawn from 23 hostile lines (zero quantities and ratios, sells first, calendar ends, 96-bit magnitudes, unknown currencies, years outside 1900-2100) through parse, calculate, validate, the writer, serde, the Schwab converter and the rate-file reader; process: the same inputs through cgt-tool parse/report (plain, json, pdf, --output), nine fault cases and the default-PDF overwrite protection with one and several input files", need_cli=True),
     "C16": spec("C16", PR.k_c16, "ledgers with 4-14 securities, several same-date disposals and 2-8 tax years (and scenario ledgers), each command (report plain, report json, parse, convert schwab, report pdf for every third ledger) run in 6 (thorough: 30) fresh processes and compared byte for byte (converter timestamp line masked, warnings included); orders checked on the output: years, disposals by date then ticker, holdings, echoed transactions, converted lines", need_cli=True),
-    "C17": dict(spec("C17", PF.k_c17, "ledgers built for display edge cases (sale prices x.xx5 giving exact half-pence results, fees 0.005/0.015, amounts of a million and more, losses, zero results, quantities with 6+ decimals, foreign-currency echoes) plus scenario ledgers and the repository fixtures; every shown figure of the plain text, the JSON and (for a subset) the PDF text runs is compared with the full-precision value; distinct non-trivial = distinct ledgers with at least one disposal"), need_pdf=True),
+    "C17": dict(spec("C17", PF.k_c17, "ledgers built for display edge cases (sale prices x.xx5 giving exact half-pence results, fees 0.005/0.015, amounts of a million and more, losses, zero results, quantities with 6+ decimals, foreign-currency echoes) plus scenario ledgers and the repository fixtures; every shown figure of the plain text, the JSON and (for a subset) the PDF text runs is compared with the full-precision value; distinct non-trivial = distinct ledgers with at least one disposal; the built CLI's plain and JSON output (all years and one tax year) compared byte for byte with the library formatters", need_cli=True), need_pdf=True),
     "C18": spec("C18", PS.k_c18, "generated Schwab exports: Buy/Sell/Cancel Sell (before and after their sells, duplicates, non-matching), four dividend kinds with same-day and next-day NRA withholdings, Stock Split, eight non-CGT actions, unknown actions, RSU rows with awards; amounts as $1,234.56 / -$x / blank / -- / missing; plain and 'as of' dates; descriptions with quotes, #, tabs, CR/LF; occasional corrupted fields; rows shuffled; plus a row permutation and a date-disjoint two-chunk split of accepted exports"),
     "C19": spec("C19", PS.k_c19, "awards files with 0-4 vest entries per symbol at offsets -9..+2 days around the deposit date, vest-specific and fallback price fields, duplicates, non-vesting cash actions with empty details, other symbols, mixed-case symbols, month/year/leap ends; plus subsets of the offset set {-9..+2} (every fourth subset in the quick tier, all 4096 in the thorough tier)"),
     "C20": spec("C20", PM.k_c20, "MCP sessions over stdio against the built binary: 5-25 (thorough: 5-40) requests per session mixing the five tools (valid, failing and malformed arguments, DSL and JSON ledgers, years inside and outside the table), tools/list, resources/list, resources/read, ping, unknown tools; alternately sequential and pipelined, integer and string ids; every distinct request's answers are compared across all positions and sessions; calculate_report is compared with `report --format json` and every listed disposal is explained in a fresh session; five transport probes (undecodable lines, unknown method, overflow) for the known findings", need_cli=True),
